@@ -234,7 +234,7 @@ def run(tier, seed, rec):
         rec.exhaustive.append("configuration grid of sub-check 1 (log8: 255 x 12, log16: 261 x 10)")
     total, shards = (4800, 16) if quick else (96000, 32)
     common.pool_merge(_cfg_shard, [(seed, i, total // shards) for i in range(shards)], rec)
-    n_ex, steps, shards = (60, 30, 16) if quick else (800, 40, 32)
+    n_ex, steps, shards = (60, 30, 16) if quick else (300, 40, 32)
     common.pool_merge(_shard, [(seed, i, n_ex, steps) for i in range(shards)], rec)
 
 
